@@ -192,6 +192,50 @@ def _get_only_mach_data(data: List[DragDataPoint]) -> List[float]:
          "    _MBC_CACHE[_key] = DragModel(bc, drag_table, weight, diameter, length)\n    return _MBC_CACHE[_key]\n"),
      ], None, None,
      "result cached by (point list identity, table length): a different table of the same length gets the old model"),
+    # ---------------------------------------------------------------- C07
+    ("c07-sfp-scales-display-value", "C07", MU,
+     """            return Angular.Radian(
+                click_size.raw_value
+                * self.scale_factor.raw_value
+                / _td.raw_value
+                * magnification
+            ) << click_size.units
+""",
+     """            return click_size.units(
+                click_size.unit_value
+                * self.scale_factor.raw_value
+                / _td.raw_value
+                * magnification
+            )
+""",
+     "the defect repaired by the fix: commit, re-seeded (SFP click step scaled in the display unit)"),
+    ("c07-atmo-temperature-or-default", "C07", CO,
+     """        self._temperature = PreferredUnits.temperature(
+            temperature if temperature is not None else Atmo.standard_temperature(self.altitude))""",
+     """        self._temperature = PreferredUnits.temperature(temperature or Atmo.standard_temperature(self.altitude))""",
+     "the defect repaired by the fix: commit, re-seeded for one parameter (bare 0 temperature means 'not given')"),
+    ("c07-danger-space-height-in-display-unit", "C07", TD,
+     "        target_height_half = target_height.raw_value / 2.0\n",
+     "        target_height_half = target_height.unit_value / 2.0\n",
+     "danger space compares the target height in the preferred distance unit against drops in inches"),
+    ("c07-default-step-through-display-unit", "C07", IF,
+     """            trajectory_step = trajectory_range.raw_value / 10.0
+            # default unit for distance is Inch, therefore, specifying value directly in it
+            step: Distance = Distance.Inch(trajectory_step)""",
+     """            trajectory_step = trajectory_range.unit_value / 10.0
+            # default unit for distance is Inch, therefore, specifying value directly in it
+            step: Distance = trajectory_range.units(trajectory_step)""",
+     "default record step computed through the displayed range (same physics, different rounding per preferred unit)"),
+    ("c07-atmo-t0-through-preferred-unit", "C07", CO,
+     "        self._t0 = self.temperature >> Temperature.Celsius\n",
+     "        self._t0 = Temperature(self.temperature.unit_value, self.temperature.units) >> Temperature.Celsius\n",
+     "station temperature cached through a round trip in the preferred temperature unit (ulp-level dependence)"),
+    ("c07-defaults-blank-then-assign", "C07", UN,
+     "        \"\"\"resets preferred units to defaults\"\"\"\n        cls.angular = Unit.Degree\n",
+     "        \"\"\"resets preferred units to defaults\"\"\"\n"
+     "        for _f in ('angular', 'distance', 'velocity', 'pressure', 'temperature', 'adjustment', 'sight_height'):\n"
+     "            setattr(cls, _f, None)\n        cls.angular = Unit.Degree\n",
+     "schedule-only: defaults() blanks slots before assigning them (a concurrent reader sees None mid-reset)"),
 ]
 
 
